@@ -6,6 +6,8 @@ import (
 	"math"
 
 	"github.com/reactivego/ivg"
+	"github.com/reactivego/ivg/decode"
+	"github.com/reactivego/ivg/encode"
 	"github.com/reactivego/ivg/render"
 
 	"ivgverif/internal/rec"
@@ -35,19 +37,44 @@ func init() {
 				return 1_500_000
 			}, Run: c06Arc,
 				Min: map[string]int64{"arcs": 100000, "relative": 20000, "absolute": 20000, "scaled_up_radii": 10000, "large_arc": 20000, "sweep_positive": 20000, "sweep_negative": 20000,
-					"zero_radius": 5000, "exact_semicircles": 2000, "reset_before_setrasterizer": 50000, "rectangle_changed_after_reset": 50000, "renderer_used_for_an_earlier_graphic": 50000, "lattice_mode": 20000, "lattice_endpoint_equals_pen_pixels": 5000, "cubics_1": 1000, "cubics_2": 1000, "cubics_3": 1000, "cubics_4": 1000, "negative_radius": 5000}},
+					"zero_radius": 5000, "exact_semicircles": 2000, "reset_before_setrasterizer": 50000, "rectangle_changed_after_reset": 50000, "renderer_used_for_an_earlier_graphic": 50000, "lattice_mode": 20000, "lattice_endpoint_equals_pen_pixels": 5000, "cubics_1": 1000, "cubics_2": 1000, "cubics_3": 1000, "cubics_4": 1000, "negative_radius": 5000, "through_destination_logger": 50000, "last_arc_of_an_encoded_run": 100000, "encoded_run_position_above_16": 30000}},
 		},
 	})
 }
 
 func c06Arc(c *run.Ctx, idx uint64) {
 	r := c.Rng(idx)
+	// How the arc reaches the Renderer: by a direct call (most cases), through
+	// the public logging wrapper, or as the last arc of a run of arcs that is
+	// encoded by the library's Encoder and decoded again. In the last mode every
+	// number has its two low mantissa bits clear, so that it survives the
+	// 4-byte number form exactly and the oracle below applies unchanged.
+	const (
+		direct = iota
+		logger
+		viaBytes
+	)
+	mode := direct
+	switch r.Intn(12) {
+	case 0:
+		mode = logger
+		c.Count("through_destination_logger", 1)
+	case 1, 2:
+		mode = viaBytes
+		c.Count("last_arc_of_an_encoded_run", 1)
+	}
+	q := func(f float32) float32 {
+		if mode == viaBytes {
+			return math.Float32frombits(math.Float32bits(f) &^ 3)
+		}
+		return f
+	}
 	var vb ivg.ViewBox
 	if r.Chance(1, 5) {
 		vb = ivg.DefaultViewBox
 	} else {
-		vb.MinX, vb.MinY = float32(r.Uniform(-80, 20)), float32(r.Uniform(-80, 20))
-		vb.MaxX, vb.MaxY = vb.MinX+float32(r.Uniform(1, 150)), vb.MinY+float32(r.Uniform(1, 150))
+		vb.MinX, vb.MinY = q(float32(r.Uniform(-80, 20))), q(float32(r.Uniform(-80, 20)))
+		vb.MaxX, vb.MaxY = q(vb.MinX+float32(r.Uniform(1, 150))), q(vb.MinY+float32(r.Uniform(1, 150)))
 	}
 	// Lattice mode: integer viewBox bounds, integer scale factors and integer
 	// coordinates, so that numbers of *different coordinate spaces* coincide
@@ -141,10 +168,15 @@ func c06Arc(c *run.Ctx, idx uint64) {
 	}
 	fa, fs := r.Bool(), r.Bool()
 	rel := r.Bool()
+	x0, y0, ex, ey, rx, ry, rot = q(x0), q(y0), q(ex), q(ey), q(rx), q(ry), q(rot)
 
 	rz := &rec.Raster{}
 	var z render.Renderer
-	switch idx % 5 {
+	setup := idx % 5
+	if mode == viaBytes {
+		setup = 2 // Decode calls Reset itself
+	}
+	switch setup {
 	case 4:
 		z.SetRasterizer(rz, rect)
 		earlierGraphic(&z, vb)
@@ -164,30 +196,130 @@ func c06Arc(c *run.Ctx, idx uint64) {
 		z.SetRasterizer(rz, rect)
 		z.Reset(vb, ivg.DefaultPalette)
 	}
-	z.StartPath(0, x0, y0)
+	// what precedes the judged arc inside its path
+	pre := []rec.Op{{K: rec.KStartPath, F: [6]float32{x0, y0}}}
 	if r.Chance(1, 3) && !lattice {
 		// move the pen by a relative line first, so that it is not a mapped float32 point
-		z.RelLineTo(float32(r.Uniform(-1, 1)), float32(r.Uniform(-1, 1)))
+		pre = append(pre, rec.Op{K: rec.KRelLineTo, F: [6]float32{q(float32(r.Uniform(-1, 1))), q(float32(r.Uniform(-1, 1)))}})
 	}
-	penX, penY := rz.Pen()
-	before := len(rz.Calls)
+	runPos := 1
+	if mode == viaBytes {
+		// the judged arc is the runPos-th of a run of arcs of its kind (the Encoder
+		// writes runs in chunks of at most 16 repetitions)
+		runPos = r.Pick(1, 2, 15, 16, 17, 18, 32, 33, 34)
+		if runPos > 16 {
+			c.Count("encoded_run_position_above_16", 1)
+		}
+		for i := 1; i < runPos; i++ {
+			d := rec.Op{K: rec.KAbsArcTo, LargeArc: r.Bool(), Sweep: r.Bool(), F: [6]float32{q(float32(r.Uniform(1, 30))), q(float32(r.Uniform(1, 30))), float32(r.Intn(64)) / 64, q(float32(r.Uniform(-60, 60))), q(float32(r.Uniform(-60, 60)))}} // rotations in 1/64 turns survive the zero-to-one forms exactly (DESIGN 6.4)
+			if rel {
+				d.K = rec.KRelArcTo
+				d.F[3], d.F[4] = q(float32(r.Uniform(-15, 15))), q(float32(r.Uniform(-15, 15)))
+			}
+			pre = append(pre, d)
+		}
+	}
+	var dst ivg.Destination = &z
+	if mode == logger {
+		dst = &ivg.DestinationLogger{Destination: &z, Alt: r.Bool()}
+	}
+	var penX, penY float32
+	before := 0
+	if mode != viaBytes {
+		if !c.Guard("path start", nil, func() { rec.ApplyAll(dst, pre) }) {
+			return
+		}
+		penX, penY = rz.Pen()
+		before = len(rz.Calls)
+	} else {
+		// a dry run by direct calls on scratch objects tells where the pen will be
+		var zs render.Renderer
+		rzs := &rec.Raster{}
+		zs.SetRasterizer(rzs, rect)
+		zs.Reset(vb, ivg.DefaultPalette)
+		if !c.Guard("path start (dry run)", nil, func() { rec.ApplyAll(&zs, pre) }) {
+			return
+		}
+		penX, penY = rzs.Pen()
+	}
 	var op rec.Op
 	if rel {
 		// offset from the *actual* pen position in viewBox units
 		px, py := float64(penX)/sx+mx, float64(penY)/sy+my
-		op = rec.Op{K: rec.KRelArcTo, LargeArc: fa, Sweep: fs, F: [6]float32{rx, ry, rot, float32(float64(ex) - px), float32(float64(ey) - py)}}
+		op = rec.Op{K: rec.KRelArcTo, LargeArc: fa, Sweep: fs, F: [6]float32{rx, ry, rot, q(float32(float64(ex) - px)), q(float32(float64(ey) - py))}}
 		c.Count("relative", 1)
 	} else {
 		op = rec.Op{K: rec.KAbsArcTo, LargeArc: fa, Sweep: fs, F: [6]float32{rx, ry, rot, ex, ey}}
 		c.Count("absolute", 1)
 	}
 	desc := func() map[string]interface{} {
-		return map[string]interface{}{"viewBox": fmt.Sprint(vb), "rect": rect.String(), "pen": []float32{penX, penY}, "op": op.String()}
+		d := map[string]interface{}{"viewBox": fmt.Sprint(vb), "rect": rect.String(), "pen": []float32{penX, penY}, "op": op.String()}
+		switch mode {
+		case logger:
+			d["through"] = "ivg.DestinationLogger"
+		case viaBytes:
+			d["through"] = fmt.Sprintf("Encoder and Decode, as arc number %d of a run", runPos)
+			d["path_before_the_arc"] = rec.Strings(clip(pre, 40))
+		}
+		return d
 	}
-	if !c.Guard("arc", func() interface{} { return desc() }, func() { rec.Apply(&z, &op) }) {
-		return
+	var calls []rec.RCall
+	if mode != viaBytes {
+		if !c.Guard("arc", func() interface{} { return desc() }, func() { rec.Apply(dst, &op) }) {
+			return
+		}
+		calls = rz.Calls[before:]
+	} else {
+		var e encode.Encoder
+		e.Reset(vb, ivg.DefaultPalette)
+		e.HighResolutionCoordinates = true
+		rec.ApplyAll(&e, pre)
+		rec.Apply(&e, &op)
+		e.ClosePathEndPath()
+		bb, eerr := e.Bytes()
+		if eerr != nil {
+			d := desc()
+			d["error"] = eerr.Error()
+			c.Violate("encoder-rejects-arc-run", d)
+			return
+		}
+		bb = append([]byte(nil), bb...)
+		tee := &rec.Dest{Tee: &z}
+		after := -1
+		var pen2X, pen2Y float32
+		tee.AfterCall = func(*rec.Op) {
+			switch len(tee.Ops) {
+			case 1 + len(pre): // Reset and everything before the judged arc have been delivered
+				pen2X, pen2Y = rz.Pen()
+				before = len(rz.Calls)
+			case 2 + len(pre):
+				after = len(rz.Calls)
+			}
+		}
+		var derr error
+		if !c.Guard("decode arc run", func() interface{} { return desc() }, func() { derr = decode.Decode(tee, bb) }) {
+			return
+		}
+		if derr != nil || after < 0 || len(tee.Ops) != 3+len(pre) {
+			d := desc()
+			d["error"], d["delivered_calls"], d["bytes"] = errStr(derr), len(tee.Ops), hx(bb)
+			c.Violate("encoded-arc-run-does-not-decode-to-itself", d)
+			return
+		}
+		got := tee.Ops[1+len(pre)]
+		frac := float32(float64(rot) - math.Floor(float64(rot)))
+		same := got.K == op.K && got.LargeArc == op.LargeArc && got.Sweep == op.Sweep && math.Abs(float64(got.F[2]-frac)) < 1e-6
+		for _, k := range []int{0, 1, 3, 4} {
+			same = same && got.F[k] == op.F[k] // numerically: the short number forms have no negative zero
+		}
+		if !same || math.Float32bits(pen2X) != math.Float32bits(penX) || math.Float32bits(pen2Y) != math.Float32bits(penY) {
+			d := desc()
+			d["delivered"], d["pen_when_decoded"], d["bytes"] = got.String(), []float32{pen2X, pen2Y}, hx(bb)
+			c.Violate("arc-of-an-encoded-run-differs-from-what-was-written", d)
+			return
+		}
+		calls = rz.Calls[before:after]
 	}
-	calls := rz.Calls[before:]
 	hh := rec.HashOps([]rec.Op{op}) ^ run.Hash64(uint64(w)<<32|uint64(h), uint64(math.Float32bits(vb.MinX))<<32|uint64(math.Float32bits(vb.MaxY)), uint64(math.Float32bits(x0))<<32|uint64(math.Float32bits(y0)))
 	c.Eval(hh, !zero)
 	c.Count("arcs", 1)
